@@ -8,7 +8,7 @@ import vlib
 from checks import common, sesscheck
 
 PROP = "C10"
-LEVEL = "other"
+LEVEL = "proof"
 MODULE = "PropC10"
 THEOREMS = ["C10_existing_values_never_change", "C10_step_touches_nothing_existing", "C10_without_copy_refuted",
             "C10_program_constants_never_change", "C10_constant_read_is_stable"]
